@@ -849,7 +849,7 @@ class SymEx:
                             submap[info['pre']] = mul(info['init'], ('prod', kk, lo, isym, bk))
                         changed = True
         for info in ls.updates.values():
-            if info['kind'] in ('sum', 'prod', 'map', 'append', 'last', 'scatter') and 'body' in info:
+            if info['kind'] in ('sum', 'prod', 'map', 'append', 'append2', 'last', 'scatter') and 'body' in info:
                 b = subst(info['body'], submap)
                 g = subst(info.get('guard', TRUE), submap)
                 if contains(b, lambda t: t in all_pres) or contains(g, lambda t: t in all_pres):
@@ -981,6 +981,14 @@ class SymEx:
             info['kind'] = 'append'
             info['guard'], info['body'] = a
             return
+        if isinstance(nxt, tuple) and nxt[0] == 'vcomp' and nxt[1] == pre and \
+                not any(occurs(x, pre) for x in nxt[2:]):
+            # an inner loop appends a whole run per outer iteration
+            info['kind'] = 'append2'
+            info['inner'] = (nxt[2], nxt[3], nxt[4])
+            info['guard'] = nxt[5]
+            info['body'] = nxt[6]
+            return
         if not contains(nxt, lambda t: t in all_pres):
             info['kind'] = 'last'
             info['body'] = nxt
@@ -1077,6 +1085,9 @@ class SymEx:
             return ('vcomp', info['init'], isym, lo, hi, info.get('guard', TRUE), b)
         if k == 'scatter':
             return ('vscatter', info['init'], isym, lo, hi, b)
+        if k == 'append2':
+            k2, lo2, hi2 = info['inner']
+            return ('vcomp2', info['init'], isym, lo, hi, k2, lo2, hi2, info.get('guard', TRUE), b)
         if k == 'last':
             return ite(T.cmp('<', lo, hi), subst(b, {isym: sub(hi, ONE)}), info['init'])
         return ('havoc', ls.id, info['label'])
@@ -1366,6 +1377,8 @@ class SymEx:
         if k == 'FloatingToIntegral':
             if is_num(v):
                 return ('num', Fraction(int(v[1])))
+            self.effect(st, 'conv', operand=v, where=e.where(), node=e.cid, to=e.ty,
+                        func=self.frames[-1].func.qualname if self.frames else None)
             return ('trunc', v)
         if k in ('IntegralToBoolean', 'FloatingToBoolean', 'PointerToBoolean'):
             return T.cmp('!=', v, ZERO) if not (isinstance(v, tuple) and v[0] in (
